@@ -294,3 +294,16 @@ def r5(ctx):
         nosite(peel(segs[1].src, unwrap=True)) == opcall and (core(segs[1].elem) == ITEM or (core(segs[1].elem)[0] == 'discr' and core(segs[1].elem)[1] == ITEM))
     ctx.require(ok, b, 'label-sequence', 'labels = -1 x prefix ++ operations(input, target) ++ -1 x suffix on every path',
                 'labels are built as %s: they must be the operations of the (input, target) alignment, not a shortcut' % [repr(x)[:120] for x in segs or ()], t.span)
+
+
+@rule('C10', 'R-C10-6', 'T11 SIBLING (one classification, one segmentation)',
+      'operations() and repair() segment their texts with the caller\'s grapheme flag unchanged, and the whitespace predicate they '
+      'both use is the Unicode White_Space predicate (R-C11-1 re-evaluated): a character that one site treats as whitespace and '
+      'Unicode does not is "deleted" by repair although it is not whitespace')
+def r6(ctx):
+    from rules.common import check_segmentation_flag
+    from rules import c11
+    n = check_segmentation_flag(ctx, [ctx.body('whitespace::operations'), ctx.body('whitespace::repair')], 'whitespace')
+    if n < 3:
+        raise AnchorMissing('CharString::new sites of operations()/repair() (found %d)' % n)
+    c11.r1(ctx)
